@@ -24,7 +24,7 @@ type MetaCase struct {
 }
 
 var rewriteKinds = []string{"const2var", "capture", "evalvis", "withvis", "stmtpos_comma", "stmtpos_void", "stmtpos_var",
-	"deadcode", "deadcode_afterreturn", "wrap_block", "wrap_iife", "tostring_eval"}
+	"deadcode", "deadcode_afterreturn", "wrap_block", "wrap_iife", "tostring_eval", "newtarget_undef", "computed_key", "forof_desugar"}
 
 // P is a piece of source in its original (A) and rewritten (B) form.
 type P struct{ A, B string }
@@ -51,6 +51,7 @@ type mgen struct {
 	sites   int // number of rewrite sites actually rewritten
 	depth   int
 	inFunc  bool
+	ntOK    bool // inside a non-arrow function body: new.target is allowed
 }
 
 func (g *mgen) fresh(p string) string { g.n++; return fmt.Sprintf("%s%d", p, g.n) }
@@ -126,7 +127,7 @@ func (g *mgen) expr(d int) P {
 	case 6:
 		if len(g.funcs) > 0 {
 			g.feat["call"] = true
-			e = cat(lit(g.funcs[g.r.Intn(len(g.funcs))]+"("), g.expr(d-1), lit(", "), g.expr(d-1), lit(")"))
+			e = g.call(d - 1)
 		} else {
 			return g.literal()
 		}
@@ -154,7 +155,42 @@ func (g *mgen) expr(d int) P {
 	return e
 }
 
+// a call of a known function with fewer, exactly as many, or MORE arguments than it has parameters
+func (g *mgen) call(d int) P {
+	f := g.funcs[g.r.Intn(len(g.funcs))]
+	parts := []P{lit(f + "(")}
+	n := []int{0, 1, 2, 2, 2, 3, 4}[g.r.Intn(7)]
+	if n > 2 {
+		g.feat["surplus_args"] = true
+	}
+	for i := 0; i < n; i++ {
+		if i > 0 {
+			parts = append(parts, lit(", "))
+		}
+		if g.r.Chance(12) {
+			parts = append(parts, lit("undefined"))
+		} else {
+			parts = append(parts, g.expr(d))
+		}
+	}
+	parts = append(parts, lit(")"))
+	return cat(parts...)
+}
+
+// typeof new.target in a function that is only ever CALLED (the generator constructs only its own CtorN
+// functions, never the fnN ones) is "undefined": the newtarget_undef rewrite site
+func (g *mgen) newTarget() P {
+	g.feat["new_target"] = true
+	if g.on("newtarget_undef") {
+		return P{"(typeof new.target)", `"undefined"`}
+	}
+	return lit("(typeof new.target)")
+}
+
 func (g *mgen) logStmt() P {
+	if g.ntOK && g.r.Chance(25) {
+		return cat(lit("log("), g.newTarget(), lit("); "))
+	}
 	return cat(lit("log("), g.expr(2), lit("); "))
 }
 
@@ -244,9 +280,9 @@ func (g *mgen) dead() P {
 func (g *mgen) region(body P) P {
 	switch {
 	case g.on("wrap_block"):
-		return cat(lit("{ "), body, lit("} "))
+		return cat(P{"", "{ "}, body, P{"", "} "})
 	case !g.strict && g.on("withvis"):
-		return cat(lit("with ({}) { "), body, lit("} "))
+		return cat(P{"", "with ({}) { "}, body, P{"", "} "})
 	}
 	return body
 }
@@ -254,6 +290,19 @@ func (g *mgen) region(body P) P {
 func (g *mgen) declare(kind string, init P) P {
 	x := g.fresh([]string{"a", "b", "c", "d"}[g.r.Intn(4)])
 	s := cat(lit(kind+" "+x+" = "), init, lit("; "))
+	switch {
+	case kind == "var" && g.r.Chance(25):
+		// read of the hoisted, not yet assigned var; sometimes no initialiser at all
+		g.feat["uninit_var_read"] = true
+		if g.r.Bool() {
+			s = cat(lit("log(String("+x+")); "), s)
+		} else {
+			s = lit("var " + x + "; log(String(" + x + ")); ")
+		}
+	case kind != "var" && g.r.Chance(15):
+		g.feat["tdz_probe"] = true
+		s = cat(lit("try { log(String("+x+")); } catch (err) { log(err instanceof ReferenceError ? \"RE\" : \"other\"); } "), s)
+	}
 	if kind != "const" {
 		g.vars = append(g.vars, x)
 	}
@@ -272,6 +321,21 @@ func (g *mgen) funcBody(params []string) P {
 	if g.on("evalvis") {
 		parts = append(parts, P{"", `eval(""); `})
 	}
+	if g.r.Chance(35) {
+		// a local that is read before it is assigned (hoisted var / TDZ let), with the capture site right after
+		x := g.fresh("h")
+		if g.r.Chance(65) {
+			g.feat["uninit_var_read"] = true
+			parts = append(parts, lit("var "+x+"; log(String("+x+")); "))
+		} else {
+			g.feat["tdz_probe"] = true
+			parts = append(parts, lit("try { log(String("+x+")); } catch (err) { log(err instanceof ReferenceError ? \"RE\" : \"other\"); } let "+x+" = 1; "))
+		}
+		if g.on("capture") {
+			g.feat["capture_uninit_local"] = true
+			parts = append(parts, P{"", "(function () { return [" + params[0] + ", " + x + "]; }); "})
+		}
+	}
 	parts = append(parts, g.stmts(1+g.r.Intn(3)))
 	ret := cat(lit("return "), g.expr(2), lit("; "))
 	if g.on("deadcode_afterreturn") {
@@ -286,23 +350,51 @@ func (g *mgen) funcBody(params []string) P {
 func (g *mgen) funcValue() (P, string) {
 	name := g.fresh("fn")
 	p1, p2 := g.fresh("p"), g.fresh("q")
-	params := p1 + ", " + p2
-	switch g.r.Pick(50, 20, 15, 15) {
+	params := lit(p1 + ", " + p2)
+	switch g.r.Pick(40, 15, 12, 12, 21) {
 	case 1:
-		params = p1 + ", " + p2 + " = 3"
+		params = lit(p1 + ", " + p2 + " = 3")
 		g.feat["default_param"] = true
 	case 2:
-		params = p1 + ", ..." + p2
+		params = lit(p1 + ", ..." + p2)
 		g.feat["rest_param"] = true
 	case 3:
-		params = "[" + p1 + ", " + p2 + " = 2]"
+		params = lit("[" + p1 + ", " + p2 + " = 2]")
 		g.feat["destructuring_param"] = true
+	case 4:
+		// both parameters have defaults; the capture site makes the FIRST initialiser create (and drop) a
+		// closure over the LATER parameter: it is never called, so nothing changes by the specification
+		g.feat["default_param"] = true
+		d1 := g.literal()
+		if g.on("capture") {
+			g.feat["fwd_default_capture"] = true
+			d1 = P{d1.A, "(() => " + p2 + ", " + d1.B + ")"}
+		}
+		params = cat(lit(p1+" = "), d1, lit(", "+p2+" = "), g.literal())
+	}
+	arrow := g.r.Chance(30)
+	saveNT := g.ntOK
+	if !arrow {
+		g.ntOK = true
 	}
 	body := g.funcBody([]string{p1, p2})
-	if g.r.Chance(30) {
-		return cat(lit("(("+params+") => { "), body, lit("})")), name
+	if !arrow && g.r.Chance(25) {
+		// assignment to the function-name binding of a named function expression: ignored in sloppy code,
+		// TypeError in strict code, whatever scopes (a `with` object, blocks) lie between
+		g.feat["selfassign"] = true
+		inner := `(function () { "use strict"; try { ` + name + ` = 1; log("nothrow"); } catch (err) { log(err instanceof TypeError ? "TE" : "other"); } })(); `
+		if g.strict || g.r.Bool() {
+			inner = `try { ` + name + ` = 1; log("nothrow"); } catch (err) { log(err instanceof TypeError ? "TE" : "other"); } log(typeof ` + name + `); `
+		} else {
+			g.feat["selfassign_strict_inner"] = true
+		}
+		body = cat(g.region(lit(inner)), body)
 	}
-	f := cat(lit("function "+name+"("+params+") { "), body, lit("}"))
+	g.ntOK = saveNT
+	if arrow {
+		return cat(lit("(("), params, lit(") => { "), body, lit("})")), name
+	}
+	f := cat(lit("function "+name+"("), params, lit(") { "), body, lit("}"))
 	if g.on("tostring_eval") {
 		if g.r.Bool() {
 			return evalOfSource(f), name
@@ -310,6 +402,49 @@ func (g *mgen) funcValue() (P, string) {
 		return P{"(" + f.A + ")", `eval("(" + (` + f.B + `).toString() + ")")`}, name
 	}
 	return cat(lit("("), f, lit(")")), name
+}
+
+// for-of over a user-defined iterator with an observable return(): the loop and its definitional desugaring
+// (IteratorStep / IteratorClose written out) must behave alike: return() is called exactly when the BODY
+// exits early, never after next() itself threw or reported done
+func (g *mgen) customIter() P {
+	g.feat["custom_iterator"] = true
+	it, v, r := g.fresh("it"), g.fresh("v"), g.fresh("r")
+	limit := 1 + g.r.Intn(3)
+	end := []string{"return { value: undefined, done: true };", "throw \"nextfail\";", "return { get done() { throw \"donefail\"; } };"}[g.r.Pick(40, 40, 20)]
+	decl := "var " + it + " = { n: 0, [Symbol.iterator]() { return this; }, next() { this.n++; log(\"next\"); if (this.n > " + fmt.Sprint(limit) + ") { " + end + " } return { value: this.n, done: false }; }, return() { log(\"return\"); return {}; } }; "
+	brk := g.r.Chance(40)
+	a := "for (const " + v + " of " + it + ") { log(" + v + "); "
+	b := "{ const " + it + "i = " + it + "[Symbol.iterator](); for (let " + r + " = " + it + "i.next(); !" + r + ".done; " + r + " = " + it + "i.next()) { const " + v + " = " + r + ".value; log(" + v + "); "
+	if brk {
+		a += "if (" + v + " === 2) break; "
+		b += "if (" + v + " === 2) { " + it + "i.return(); break; } "
+	}
+	a += "} "
+	b += "} } "
+	loop := lit(a)
+	if g.on("forof_desugar") {
+		loop = P{a, b}
+	}
+	return cat(lit(decl+"try { "), loop, lit("log(\"done\"); } catch (err) { log(err); } "))
+}
+
+// class / object member key: the constant-key vs computed-key rewrite site
+func (g *mgen) key(k string) P {
+	if g.on("computed_key") {
+		if g.r.Bool() {
+			kv := g.fresh("k")
+			g.predecl = append(g.predecl, "const "+kv+" = \""+k+"\";")
+			return P{k, "[" + kv + "]"}
+		}
+		return P{k, "[\"" + k + "\"]"}
+	}
+	return lit(k)
+}
+
+// property attributes of every own key, as one string
+func attrDump(obj string) string {
+	return "log(Object.getOwnPropertyNames(" + obj + ").map(function (k) { var d = Object.getOwnPropertyDescriptor(" + obj + ", k); return k + \":\" + (d.enumerable ? \"E\" : \"e\") + (d.configurable ? \"C\" : \"c\") + (\"writable\" in d ? (d.writable ? \"W\" : \"w\") : \"a\"); }).join()); log(Object.keys(" + obj + ").join()); "
 }
 
 func (g *mgen) stmts(n int) P {
@@ -329,7 +464,9 @@ func (g *mgen) stmt() P {
 		}
 		return g.effectStmt()
 	}
-	switch g.r.Pick(16, 18, 10, 7, 8, 4, 4, 5, 5, 6, 4, 4, 5, 4, 5, 5) {
+	switch g.r.Pick(16, 18, 10, 7, 8, 4, 4, 5, 5, 6, 4, 4, 5, 4, 5, 5, 4, 3, 4) {
+	case 18:
+		return g.customIter()
 	case 14:
 		return g.failingUpdate()
 	case 15:
@@ -391,8 +528,23 @@ func (g *mgen) stmt() P {
 		saveV := g.vars
 		body := g.stmts(1)
 		g.vars = saveV
-		return cat(lit(l+": for (let "+i+" = 0; "+i+" < 3; "+i+"++) { for (let "+j+" = 0; "+j+" < 3; "+j+"++) { if ("+j+" === "), g.literal2(1, 2),
-			lit(") continue "+l+"; if ("+i+" === 2) break "+l+"; log("+i+" * 10 + "+j+"); "), body, lit("} } "))
+		// capture sites on the loop variables: an unused closure over j / i (the loop head scopes then own a stash)
+		capJ, capI := lit(""), lit("")
+		if g.on("capture") {
+			g.feat["capture_loop_var"] = true
+			capJ = P{"", "(() => " + j + "); "}
+		}
+		if g.on("capture") {
+			g.feat["capture_loop_var"] = true
+			capI = P{"", "(function () { return " + i + "; }); "}
+		}
+		outerKw := []string{"let", "let", "var"}[g.r.Intn(3)]
+		after := lit("")
+		if len(g.vars) > 0 {
+			after = lit("log(" + g.anyVar() + "); ")
+		}
+		return cat(lit(l+": for ("+outerKw+" "+i+" = 0; "+i+" < 3; "+i+"++) { "), capI, lit("for (let "+j+" = 0; "+j+" < 3; "+j+"++) { "), capJ, lit("if ("+j+" === "), g.literal2(1, 2),
+			lit(") continue "+l+"; if ("+i+" === 2) break "+l+"; log("+i+" * 10 + "+j+"); "), body, lit("} log(\"unreached?\"); } "), after)
 	case 9:
 		g.feat["switch"] = true
 		saveV := g.vars
@@ -442,8 +594,22 @@ func (g *mgen) stmt() P {
 	case 13:
 		g.feat["class"] = true
 		c, d := g.fresh("C"), g.fresh("D")
-		return cat(lit("class "+c+" { constructor(x) { this.x = x; } m() { return this.x + "), g.literal(), lit("; } static s() { return 7; } get g() { return this.x * 2; } } "),
-			lit("class "+d+" extends "+c+" { m() { return super.m() * 2; } } log(new "+d+"("), g.expr(1), lit(").m()); log("+c+".s() + new "+c+"(1).g); "))
+		return cat(lit("class "+c+" { constructor(x) { this.x = x; } "), g.key("m"), lit("() { return this.x + "), g.literal(), lit("; } static "), g.key("s"),
+			lit("() { return 7; } get "), g.key("g"), lit("() { return this.x * 2; } set "), g.key("w"), lit("(v) { this.x = v; } static get "), g.key("sg"), lit("() { return 1; } static set "), g.key("sw"), lit("(v) { } } "),
+			lit("class "+d+" extends "+c+" { m() { return super.m() * 2; } } log(new "+d+"("), g.expr(1), lit(").m()); log("+c+".s() + new "+c+"(1).g); "),
+			lit(attrDump(c+".prototype")+attrDump(c)))
+	case 16:
+		// a function of the program is called from inside a constructor invocation
+		if len(g.funcs) == 0 {
+			return g.logStmt()
+		}
+		g.feat["ctor_calls_function"] = true
+		k := g.fresh("Ctor")
+		return cat(lit("function "+k+"() { log(typeof new.target); this.r = "), g.call(1), lit("; } log(typeof new "+k+"().r); "))
+	case 17:
+		g.feat["object_accessor_attrs"] = true
+		o := g.fresh("o")
+		return cat(lit("var "+o+" = { "), g.key("m"), lit("() { return 1; }, get "), g.key("g"), lit("() { return 2; }, set "), g.key("w"), lit("(v) { }, "), g.key("d"), lit(": "), g.literal(), lit(" }; "), lit(attrDump(o)))
 	default:
 		fv, _ := g.funcValue()
 		x := g.fresh("f")
@@ -704,6 +870,64 @@ func coqToks(t [][]int64) string {
 	return vh.CoqList(s)
 }
 
+// tokStr renders one event readably (used for the first differing event of a pair)
+func tokStr(t []int64) string {
+	if len(t) == 0 {
+		return "?"
+	}
+	kind := map[int64]string{1: "log", 2: "value", 3: "throw", 8: "syntaxerror", 9: "abort"}[t[0]]
+	v := t[1:]
+	if len(v) == 0 {
+		return kind
+	}
+	switch v[0] {
+	case 0:
+		return kind + ":undefined"
+	case 1:
+		return kind + ":null"
+	case 2:
+		return fmt.Sprintf("%s:bool:%d", kind, v[1])
+	case 3:
+		f := math.Float64frombits(uint64(v[1])<<32 | uint64(v[2]))
+		if v[1] == -1 {
+			return kind + ":num:NaN"
+		}
+		return fmt.Sprintf("%s:num:%v:canon%d", kind, f, v[3])
+	case 4:
+		var b strings.Builder
+		for _, c := range v[1:] {
+			if c >= 0 {
+				b.WriteRune(rune(c))
+			}
+		}
+		return kind + ":str:" + b.String()
+	case 5:
+		return kind + ":function"
+	case 7:
+		if len(v) > 1 && v[1] <= 6 {
+			return kind + ":" + []string{"", "TypeError", "RangeError", "SyntaxError", "ReferenceError", "EvalError", "Error"}[v[1]]
+		}
+		return kind + ":object"
+	}
+	return kind + ":other"
+}
+
+func firstDiff(a, b [][]int64) string {
+	for i := 0; i < len(a) || i < len(b); i++ {
+		var x, y []int64
+		if i < len(a) {
+			x = a[i]
+		}
+		if i < len(b) {
+			y = b[i]
+		}
+		if fmt.Sprint(x) != fmt.Sprint(y) {
+			return fmt.Sprintf("DIFF@%d A=<%s> B=<%s> ;; ", i, tokStr(x), tokStr(y))
+		}
+	}
+	return ""
+}
+
 func runMeta(c MetaCase) vh.Record {
 	ta, xa, sa := runOne(c.A)
 	tb, xb, sb := runOne(c.B)
@@ -730,7 +954,7 @@ func runMeta(c MetaCase) vh.Record {
 	for _, f := range c.Feat {
 		tags = append(tags, "feat:"+f)
 	}
-	obs := "A: " + xa + " || B: " + xb
+	obs := firstDiff(ta, tb) + "A: " + xa + " || B: " + xb
 	if len(obs) > 1500 {
 		obs = obs[:1500]
 	}
